@@ -1,7 +1,7 @@
 (* C05 - every destination receives each source's records in read order, once, filtered records
    absent: property theorems only. *)
 From Verif Require Import Multi.Trace Multi.TraceProofs Multi.Accept Multi.AcceptProofs
-  Multi.SysV2 Multi.SysV2Proofs Stream.SysV1 Stream.SysV1Proofs Stream.Parallel.
+  Multi.SysV2 Multi.SysV2Proofs Stream.SysV1 Stream.SysV1Proofs Stream.Parallel Stream.ParallelW.
 
 Theorem C05_monitor_is_property : forall t log, Mon_C05 t log = true <-> C05_holds t log.
 Proof. exact mon05_sound. Qed.
@@ -41,3 +41,41 @@ Theorem C05_parallel_preserves_order : forall acts,
     j < njobs (par_run acts) /\ outcome_of (par_run acts) j = Some OPass.
 Proof. exact parallel_preserves_order. Qed.
 Print Assumptions C05_parallel_preserves_order.
+
+(* ---------- ParallelNode with W workers, coordinator wait / send, head-of-line blocking ---------- *)
+(* back-pressure: at most W jobs are dispatched and not yet collected, however long the head takes *)
+Theorem C05_parallel_inflight_bounded : forall W acts,
+  w_n (parw_run W acts) - w_next (parw_run W acts) <= W.
+Proof. exact parallel_inflight_bounded. Qed.
+Print Assumptions C05_parallel_inflight_bounded.
+
+(* whatever completes (or is dead-lettered) in the middle of the queue while the coordinator is held
+   up in its wait or in its send: what it sends on is strictly increasing in dispatch order *)
+Theorem C05_parallel_bounded_preserves_order : forall W acts,
+  increasing (w_fwd (parw_run W acts)) /\
+  forall j, In j (w_fwd (parw_run W acts)) ->
+    j < w_n (parw_run W acts) /\ w_outcome (parw_run W acts) j = Some OPass.
+Proof. exact parallel_bounded_preserves_order. Qed.
+Print Assumptions C05_parallel_bounded_preserves_order.
+
+(* several sources through one parallel processor: each source's records leave in read order *)
+Theorem C05_parallel_per_source_order : forall W acts (tag : nat -> nat * nat),
+  (forall i j, i < j -> fst (tag i) = fst (tag j) -> snd (tag i) < snd (tag j)) ->
+  forall x y a b, x < y ->
+    nth_error (w_fwd (parw_run W acts)) x = Some a ->
+    nth_error (w_fwd (parw_run W acts)) y = Some b ->
+    fst (tag a) = fst (tag b) -> snd (tag a) < snd (tag b).
+Proof. exact parallel_per_source_order. Qed.
+Print Assumptions C05_parallel_per_source_order.
+
+(* non-vacuity: head job 0 slow, job 1 dead-lettered while the coordinator waits, jobs 2 and 3 pass *)
+Example C05_parallel_hol_demo :
+  w_fwd (parw_run 4 [WDispatch; WDispatch; WDispatch; WDispatch; WDispatch;
+                     WComplete 1 ODone; WComplete 2 OPass; WComplete 3 OPass; WComplete 0 OPass;
+                     WWait; WSend true; WWait; WWait; WSend true; WWait; WSend true]) = [0; 2; 3].
+Proof. vm_compute. reflexivity. Qed.
+
+(* a coordinator that drains its queue and lets go of settled jobs by swap-remove reorders *)
+Theorem C05_swap_remove_coordinator_refuted : exists queue, ~ increasing (swap_remove_order queue).
+Proof. exact swap_remove_coordinator_refuted. Qed.
+Print Assumptions C05_swap_remove_coordinator_refuted.
